@@ -848,6 +848,9 @@ Definition run (v : variant) (entry : N) (na : list N) (ba : list bytes) : resul
                         | Some (r, n) => [TN (if list_eq_dec N.eq_dec r (barg 1 ba) then 2 else 1); TB n]
                         end) (chap_response b)) else
   if entry =? 8 then (rmap (fun o => [tob o]) (echo_tail b)) else
+  if entry =? 9 then (rmap (fun o => [TB (ppp_serialize_options o)]) (ppp_parse_options b)) else
+  if entry =? 11 then Ok [TB (pap_build b (barg 1 ba))] else
+  if entry =? 12 then Ok [TB (chap_build b (barg 1 ba))] else
   if entry =? 10 then (rmap tags_toks (parse_tags b)) else
   if entry =? 20 then (rmap l2_toks (l2tp_parse b)) else
   if entry =? 21 then (rmap avp_toks (parse_avps b)) else
